@@ -34,6 +34,13 @@ Tie (correspondence, every run, against the library rebuilt from the repository'
      of the basis states -- measured: up to 2e-8).  This covers the part of C18 that is only partially formalised
      (sem_permute_monomial_partial, sem_permute_poly_partial: conjugation by the signed basis permutation, for products of
      adjacent transpositions; the step to spectra and observables is not formalised).
+     Two model families: (i) raw Lattice::Term lines (levels, hoppings, density-density, pair hopping, pairing), 30% of them with one or
+     two LatticePresets::addHopping calls on top; (ii) `presets-asym': multi-orbital / multi-spin sites with pairwise different levels
+     joined by LatticePresets::addHopping bonds whose two ends are DIFFERENT orbitals and / or DIFFERENT spins (addHopping8 with
+     Orbital1 != Orbital2 or Spin1 != Spin2, addHopping7 / addHopping6 with Orbital1 != Orbital2; also bonds inside one site), the two
+     labels passed in either alphabetical order.  The renaming of every copy REVERSES the alphabetical order of the labels, so that
+     for every such bond label1 < label2 in one copy and label1 > label2 in the other: a preset that attaches (Orbital1, Spin1) to a
+     site chosen by comparing the labels builds two different Hamiltonians (the signature says `bond-order-reversed').
 """
 import itertools
 import json
@@ -629,7 +636,105 @@ def gen_phys_model(rng, max_modes):
         # Symmetrizer::compute() builds S_z from the spin-1 indices and throws when they are not half of all indices
         # (spinless sites; a matter of C07, the same for every copy of the model): switch the symmetry search off here
         symm = "ignore"
-    return {"sites": sites, "terms": terms, "beta": beta, "symm": symm}
+    hops = gen_hops(rng, sites, rng.randint(1, 2), want_asym=False) if rng.random() < 0.3 else []
+    return {"sites": sites, "terms": terms, "hops": hops, "beta": beta, "symm": symm, "family": "terms+presets" if hops else "terms"}
+
+
+def hop_is_asym(h):
+    """does the bond join different orbitals or different spins of two DIFFERENT sites?  (then the two ends are distinguishable and
+    the bond has an orientation: which (orbital, spin) pair sits on which site)"""
+    cmd, l1, l2, t, a = h
+    if l1 == l2:
+        return False
+    if cmd == "addHopping8":
+        return a[0] != a[1] or a[2] != a[3]
+    if cmd in ("addHopping7", "addHopping6"):
+        return a[0] != a[1]
+    return False
+
+
+def gen_hops(rng, sites, count, want_asym=True):
+    """count calls of the LatticePresets::addHopping overloads (scenario commands addHopping8/7/6/4 of ed_common.h) on the given sites:
+    (command, label1, label2, t, (orbital1, orbital2[, spin1, spin2 | spin])).  The two labels are passed in random orientation
+    (label1 < label2 and label1 > label2 both occur); inter-orbital and spin-mixing bonds preferred; also bonds between two orbitals
+    of one site.  With want_asym at least one bond joins different orbitals or different spins of two different sites."""
+    shape = {l: (o, s) for l, o, s in sites}
+    labels = [l for l, _, _ in sites]
+    dy = lambda: rng.choice([k for k in range(-8, 9) if k != 0]) / 8
+    hops = []
+    for attempt in range(60):
+        if len(hops) >= count and (not want_asym or any(hop_is_asym(h) for h in hops)):
+            break
+        if len(labels) >= 2 and rng.random() < 0.88:
+            l1, l2 = rng.sample(labels, 2)            # random orientation
+        else:
+            l1 = l2 = rng.choice(labels)
+        (o1n, s1n), (o2n, s2n) = shape[l1], shape[l2]
+        o1, o2 = rng.randrange(o1n), rng.randrange(o2n)
+        s1, s2 = rng.randrange(s1n), rng.randrange(s2n)
+        if rng.random() < 0.7:
+            # look for different orbitals / different spins at the two ends
+            for _ in range(6):
+                if o1 != o2 or s1 != s2:
+                    break
+                o1, o2, s1, s2 = rng.randrange(o1n), rng.randrange(o2n), rng.randrange(s1n), rng.randrange(s2n)
+        r = rng.random()
+        if r < 0.5:
+            if l1 == l2 and o1 == o2 and s1 == s2:
+                continue                               # a doubled level: not a bond
+            h = ("addHopping8", l1, l2, dy(), (o1, o2, s1, s2))
+        elif r < 0.75:
+            sp = rng.randrange(min(s1n, s2n))
+            if l1 == l2 and o1 == o2:
+                continue
+            h = ("addHopping7", l1, l2, dy(), (o1, o2, sp))
+        elif r < 0.93:
+            if s1n != s2n or (l1 == l2 and o1 == o2):
+                continue
+            h = ("addHopping6", l1, l2, dy(), (o1, o2))
+        else:
+            if (o1n, s1n) != (o2n, s2n) or l1 == l2:
+                continue
+            h = ("addHopping4", l1, l2, dy(), ())
+        if len(hops) >= count and not hop_is_asym(h):
+            continue
+        hops.append(h)
+    return hops
+
+
+HOP_SHAPES = [[(2, 1), (2, 1)], [(1, 2), (1, 2)], [(2, 1), (1, 2)], [(2, 2), (1, 1)], [(2, 1), (3, 1)], [(1, 2), (1, 3)], [(2, 2), (1, 2)],
+              [(2, 2), (2, 1)], [(3, 1), (3, 1)], [(1, 3), (1, 3)], [(2, 1), (1, 1), (2, 1)], [(1, 2), (1, 2), (1, 2)], [(2, 1), (2, 1), (1, 2)],
+              [(3, 2), (1, 1)], [(1, 1), (2, 2)]]
+HOP_SHAPE_BIG = [(2, 2), (2, 2)]           # 8 modes, 256 states: a few per run
+
+
+def gen_hop_model(rng, big=False):
+    """multi-orbital / multi-spin sites joined by LatticePresets::addHopping bonds between DIFFERENT orbitals and / or DIFFERENT spins
+    (addHopping8 with Orbital1 != Orbital2 or Spin1 != Spin2, addHopping7 / addHopping6 with Orbital1 != Orbital2), the two labels passed
+    in either alphabetical order; all levels different (so that the two ends of a bond are distinguishable: attaching (Orbital1, Spin1)
+    to the other site changes the spectrum), some density-density interactions."""
+    shape = list(HOP_SHAPE_BIG if big else rng.choice(HOP_SHAPES))
+    rng.shuffle(shape)
+    labels = rng.sample(PHYS_LABELS, len(shape))
+    sites = [(l, o, s) for l, (o, s) in zip(labels, shape)]
+    modes = [(l, o, s) for l, orb, sp in sites for o in range(orb) for s in range(sp)]
+    levels = rng.sample([k for k in range(-14, 15) if k != 0], len(modes))        # pairwise different
+    terms = [(lv / 8, [(1, m), (0, m)]) for lv, m in zip(levels, modes)]
+    for a, b in itertools.combinations(modes, 2):
+        if rng.random() < (0.15 if big else 0.3):
+            terms.append((rng.choice([k for k in range(-6, 11) if k != 0]) / 4, [(1, a), (1, b), (0, b), (0, a)]))
+    hops = gen_hops(rng, sites, rng.randint(1, 3), want_asym=True)
+    spins = [s for _, _, s in sites]
+    symm = "ignore" if rng.random() < 0.2 else "default"
+    if max(spins) <= 2 and min(spins) < 2:
+        symm = "ignore"                    # see gen_phys_model
+    return {"sites": sites, "terms": terms, "hops": hops, "beta": rng.choice([1, 2, 4, 8]), "symm": symm,
+            "family": "presets-asym" if any(hop_is_asym(h) for h in hops) else "presets"}
+
+
+def hop_line(h, relabel):
+    cmd, l1, l2, t, a = h
+    return "%s %s %s %r%s" % (cmd, relabel[l1], relabel[l2], t, "".join(" %d" % x for x in a))
 
 
 def scenario_text(sid, model, relabel, order, mode):
@@ -640,6 +745,8 @@ def scenario_text(sid, model, relabel, order, mode):
         L.append("site %s %d %d" % (relabel[l], o, s))
     for v, ops in model["terms"]:
         L.append("term %d %r %s" % (len(ops), v, " ".join("%d %s %d %d" % (dag, relabel[m[0]], m[1], m[2]) for dag, m in ops)))
+    for h in model.get("hops", []):
+        L.append(hop_line(h, relabel))
     L += ["order_spins %d" % mode, "symm %s" % model["symm"], "beta %r" % float(model["beta"]), "end"]
     return "\n".join(L) + "\n"
 
@@ -790,12 +897,27 @@ def shrink_phys(hphys, model, var, budget=60):
             terms = trial
         else:
             i += 1
-    return dict(cur, terms=terms)
+    cur = dict(cur, terms=terms)
+    # then the addHopping calls, one at a time
+    hops = list(model.get("hops", []))
+    i = 0
+    while i < len(hops) and budget > 0:
+        trial = hops[:i] + hops[i + 1:]
+        m2 = dict(cur, hops=trial)
+        rc, res, _ = run_phys(hphys, [("a", scenario_text("a", m2, ident, list(range(len(model["sites"]))), 0)),
+                                      ("b", scenario_text("b", m2, relabel, order, mode))], timeout=20)
+        budget -= 1
+        if rc == 0 and "a" in res and "b" in res and compare_phys(res["a"], res["b"], relabel) is not None:
+            hops = trial
+        else:
+            i += 1
+    return dict(cur, hops=hops)
 
 
-def phys_plans(chk, n_models, max_modes):
+def phys_plans(chk, n_models, max_modes, n_hop=0, n_hop_big=0):
     rng = chk.rng
     models = [gen_phys_model(rng, max_modes) for _ in range(n_models)]
+    models += [gen_hop_model(rng) for _ in range(n_hop)] + [gen_hop_model(rng, big=True) for _ in range(n_hop_big)]
     return [(m, phys_variants(rng, m)) for m in models]
 
 
@@ -846,6 +968,7 @@ def phys_part(chk, plans, unsafe):
             break      # one runaway scenario is enough; do not spend the time budget on more
     compared = 0
     nviol = 0
+    counts = {}
     for sid, mi, vi in meta:
         if vi == 0:
             continue
@@ -857,29 +980,52 @@ def phys_part(chk, plans, unsafe):
         diff = compare_phys(b, v, rel)
         N = len(b["I"])
         both_err = b.get("status") != "ok"
+        hops = m.get("hops", [])
+        # bonds with distinguishable ends whose two labels swap their alphabetical order under this copy's renaming
+        flipped = sum(1 for h in hops if hop_is_asym(h) and (h[1] < h[2]) != (rel[h[1]] < rel[h[2]]))
+        fam = m.get("family", "terms")
         chk.case("P " + texts["m%dv0" % mi] + texts[sid],
-                 "phys %s modes=%d symm=%s%s" % (name, N if not both_err else 0, m["symm"], " both-error" if both_err else ""),
+                 "phys %s %s%s modes=%d symm=%s%s" % (name, fam, " bond-order-reversed" if flipped else "", N if not both_err else 0, m["symm"],
+                                                    " both-error" if both_err else ""),
                  nontrivial=not both_err,
-                 sample={"variant": name, "sites": m["sites"], "relabel": rel, "order": order, "mode": mode,
-                         "n_terms": len(m["terms"]), "G00_base": str(b["G"].get((0, 0, 0)))} if (compared % 37 == 5) else None)
+                 sample={"variant": name, "sites": m["sites"], "relabel": rel, "order": order, "mode": mode, "family": fam,
+                         "n_terms": len(m["terms"]), "hops": [hop_line(h, {l: l for l, _, _ in m["sites"]}) for h in hops],
+                         "hops_in_copy": [hop_line(h, rel) for h in hops],
+                         "G00_base": str(b["G"].get((0, 0, 0)))} if (compared % 37 == 5 or (flipped and counts.get("flipped_samples", 0) < 2)) else None)
+        if flipped:
+            counts["flipped_samples"] = counts.get("flipped_samples", 0) + 1
+            counts["asym_bond_reversed"] = counts.get("asym_bond_reversed", 0) + 1
+        if hops:
+            counts["with_preset_hops"] = counts.get("with_preset_hops", 0) + 1
         compared += 1
         if diff is not None:
             nviol += 1
-            if nviol > 6:
-                continue                 # enough replays; the count goes into the evidence
-            small = shrink_phys(hphys, m, vs[vi]) if nviol <= 3 else m
+            # two classes of mismatch (one copy is rejected while the other is built / both are built and the numbers differ):
+            # three replays each, the first two shrunk; the counts go into the evidence
+            cls = "rejected" if diff.startswith("one copy fails") else "values"
+            counts["viol_" + cls] = counts.get("viol_" + cls, 0) + 1
+            if counts["viol_" + cls] > 3:
+                continue
+            small = shrink_phys(hphys, m, vs[vi]) if counts["viol_" + cls] <= 2 else m
             ident = {l: l for l, _, _ in m["sites"]}
             ta = scenario_text("a", small, ident, list(range(len(m["sites"]))), 0)
             tb = scenario_text("b", small, rel, order, mode)
             rc2, r2, _ = run_phys(hphys, [("a", ta), ("b", tb)], timeout=20)
             d2 = compare_phys(r2.get("a", {}), r2.get("b", {}), rel) if rc2 == 0 else diff
-            key = "phys %s sites=%s terms=%d" % (name, ",".join("%s(%d,%d)" % s for s in m["sites"]), len(small["terms"]))
-            chk.violation(key, "results are not related by the induced index permutation (%s): %s" % (name, d2 or diff),
+            hl = [hop_line(h, ident) for h in small.get("hops", [])]
+            key = "phys %s sites=%s terms=%d%s" % (name, ",".join("%s(%d,%d)" % s for s in m["sites"]), len(small["terms"]),
+                                                   (" hops=" + ";".join(hl)) if hl else "")
+            chk.violation(key, "results are not related by the induced index permutation (%s%s): %s" % (
+                              name, ("; renaming " + ", ".join("%s->%s" % (l, rel[l]) for l, _, _ in m["sites"]) + "; " + "; ".join(hl)) if hl else "", d2 or diff),
                           {"kind": "phys", "base": ta, "variant": tb, "relabel": rel, "difference": d2 or diff})
     chk.extra["phys_models"] = n_models
     chk.extra["phys_comparisons"] = compared
     chk.extra["phys_skipped_unsafe_copies"] = skipped
     chk.extra["phys_mismatching_comparisons"] = nviol
+    chk.extra["phys_mismatches_one_copy_rejected"] = counts.get("viol_rejected", 0)
+    chk.extra["phys_mismatches_values_differ"] = counts.get("viol_values", 0)
+    chk.extra["phys_comparisons_with_addHopping_calls"] = counts.get("with_preset_hops", 0)
+    chk.extra["phys_comparisons_inter_orbital_or_spin_mixing_bond_with_label_order_reversed"] = counts.get("asym_bond_reversed", 0)
 
 
 # --------------------------------------------------------------------------------------------
@@ -946,7 +1092,7 @@ def run(chk):
     ok, log = chk.prove(["extract/Extract_C18.vo"], extra_props=["Properties_C18_source.v"])
     common(chk)
     runner = IndexRunner(chk)
-    plans = phys_plans(chk, 150 if quick else 1200, 5)
+    plans = phys_plans(chk, 150 if quick else 1200, 5, n_hop=60 if quick else 500, n_hop_big=6 if quick else 30)
     cases = gen_index_cases(chk, quick) + phys_index_cases(plans)
     unsafe = index_part(chk, runner, cases)      # (mode, site map) pairs whose index table has null entries
     lattices, seen = [], set()
@@ -966,8 +1112,10 @@ def run(chk):
                 "(quick: 001, 011, 100, 110; thorough: all 8), the object dumped after every call and compared with the property text, a fresh "
                 "object's dump and the model's table for the last mode; distinct = (history, call sequence); non-trivial = the two "
                 "orders differ on the lattice and the history switches mode. "
-                "physics: random hermitian models (levels, hoppings, density-density, pair-hopping, occasionally pairing terms) on <= 5 "
-                "modes, each built 4-5 times (mode switch, relabelling that reverses the label order, permuted addSite calls, "
+                "physics: random hermitian models (levels, hoppings, density-density, pair-hopping, occasionally pairing terms; 30% with one or two "
+                "LatticePresets::addHopping calls) on <= 5 modes, and models on multi-orbital / multi-spin sites (4..6 modes, a few with 8) with "
+                "pairwise different levels joined by addHopping8/7/6/4 bonds between different orbitals and / or different spins, labels passed "
+                "in either alphabetical order; each built 4-5 times (mode switch, relabelling that reverses the label order, permuted addSite calls, "
                 "all combined) and compared with the base copy through pi; copies whose index table has null entries are not run "
                 "(reported by the index part); compared: sorted eigenvalues, ground energy, n_i, n_i n_j, <c+_i c_j>, G_ij at n = 0, 1, -1, 2, 7, -12 "
                 "(with and without the documented dropping of small Lehmann terms)")
